@@ -1,4 +1,5 @@
 import AFProofs.Lemmas.Interp
+import AFProofs.Lemmas.InterpCov
 
 /-!
 # C20 — interpolation reproduces known points and linear trends
@@ -344,5 +345,203 @@ example : valueAt (getitem {} lsq series [.s "g", .s "centre"] 2) [.s "t"] = som
 example : valueAt (getitem {} lsq series [.s "t"] 9) [.s "items", .i 1] = some 7 := by decide +kernel
 example : floatPaths series.head! =
     [[.s "t"], [.s "g", .s "centre"], [.s "g", .s "sigma"], [.s "items", .i 0]] := by decide +kernel
+
+end AF.C20
+
+/-!
+## CovarianceInterpolator: the plumbing (`AFModel/InterpCov.lean`, request kind `cov`)
+
+What is gathered and where it is put; the numeric kernels (per-sample `numpy.cov`, the matrix inverse,
+the fit of the relationships) are data.
+
+* x sorted, x / y a rearrangement of the samples        `cov_x_sorted`, `cov_x_perm`, `cov_y_layout`
+* order independence of x and y                         `cov_xy_order_independent` (pairwise distinct abscissae)
+* where the covariance blocks are put                   `cov_matrix_rows`, `cov_matrix_entry_inside`,
+                                                        `cov_matrix_entry_left`, `cov_matrix_entry_right`
+* blocks follow the order of x / y                      `cov_blocks_order_independent` (repaired,
+                                                        `fixes/C20-covariance-blocks-sorted.patch`),
+                                                        `cov_blocks_partial_when_flag_off`,
+                                                        `cov_blocks_refuted_when_flag_off`
+* the variable equals the requested value               `cov_variable_equals_requested` (repaired,
+                                                        `fixes/C20-covariance-variable-assigned.patch`),
+                                                        `cov_variable_refuted_when_flag_off`
+* the template model is the first best sample           `cov_single_model_is_first_maximum`
+-/
+
+namespace AF.C20
+open AF.InterpCov
+
+/-- `analysis.x` is in increasing order … -/
+theorem cov_x_sorted (ss : List Sample) : (covX ss).Pairwise (· ≤ ·) := by
+  unfold covX
+  rw [List.pairwise_map]
+  exact sortByT_sorted ss
+
+/-- … and is a rearrangement of the abscissae of the samples supplied. -/
+theorem cov_x_perm (ss : List Sample) : (covX ss).Perm (ss.map (·.t)) :=
+  (sortByT_perm ss).map _
+
+/-- **What is gathered.** With `k` parameters per sample, entry `i*k + a` of `analysis.y` is parameter
+`a` of the sample with the `i`-th smallest abscissa (the sample whose abscissa is `x[i]`). -/
+theorem cov_y_layout (ss : List Sample) (k : Nat) (hk : ∀ s ∈ ss, s.params.length = k)
+    (i a : Nat) (ha : a < k) :
+    (covY ss)[i * k + a]? = ((sortByT ss)[i]?).bind (fun s => s.params[a]?) ∧
+    (covX ss)[i]? = ((sortByT ss)[i]?).map (·.t) := by
+  constructor
+  · unfold covY
+    rw [getElem?_flatten_uniform k _ i a ?_ ha]
+    · rw [List.getElem?_map]
+      cases (sortByT ss)[i]? <;> rfl
+    · intro l hl
+      obtain ⟨s, hs, rfl⟩ := List.mem_map.mp hl
+      exact hk s ((sortByT_perm ss).mem_iff.mp hs)
+  · unfold covX
+    rw [List.getElem?_map]
+
+/-- **Order independence of what is fitted (x, y).** With pairwise distinct abscissae two orders of
+the same samples give the same `x` and `y`. -/
+theorem cov_xy_order_independent (ss ss' : List Sample) (hp : ss.Perm ss')
+    (hnd : (ss.map (·.t)).Nodup) : covX ss = covX ss' ∧ covY ss = covY ss' := by
+  unfold covX covY
+  rw [sortByT_of_perm hp hnd]
+  exact ⟨rfl, rfl⟩
+
+/-- **Where the blocks are put.** Row `i*k + a` of the block-diagonal matrix is row `a` of block `i`
+behind `i*k` zeros and before `(n-i-1)*k` zeros. -/
+theorem cov_matrix_rows (k : Nat) (ms : List (List (List Rat))) (hk : ∀ m ∈ ms, m.length = k)
+    (i a : Nat) (ha : a < k) :
+    (blockDiag k ms)[i * k + a]? =
+      ((ms[i]?).bind (fun m => m[a]?)).map (padRow k ms.length i) := by
+  unfold blockDiag
+  rw [blockRows_eq_flatten, getElem?_flatten_uniform k _ i a (paddedBlocks_lengths k _ ms 0 hk) ha,
+    paddedBlocks_getElem?]
+  cases ms[i]? with
+  | none => rfl
+  | some m =>
+    simp only [Option.map_some, Option.bind_some, Nat.zero_add, List.getElem?_map]
+
+/-- inside block `i`: the entry of the sample's covariance matrix -/
+theorem cov_matrix_entry_inside (k : Nat) (ms : List (List (List Rat))) (hk : ∀ m ∈ ms, m.length = k)
+    (i a c : Nat) (m : List (List Rat)) (row : List Rat) (ha : a < k)
+    (hm : ms[i]? = some m) (hr : m[a]? = some row) (hc : c < row.length) :
+    entry (blockDiag k ms) (i * k + a) (i * k + c) = entry m a c := by
+  unfold entry
+  rw [cov_matrix_rows k ms hk i a ha, hm]
+  simp only [Option.bind_some]
+  rw [hr]
+  simp only [Option.map_some]
+  rw [padRow_inside k ms.length i row c hc]
+
+/-- left of block `i`: zero -/
+theorem cov_matrix_entry_left (k : Nat) (ms : List (List (List Rat))) (hk : ∀ m ∈ ms, m.length = k)
+    (i a j : Nat) (ha : a < k) (hj : j < i * k) :
+    entry (blockDiag k ms) (i * k + a) j = 0 := by
+  unfold entry
+  rw [cov_matrix_rows k ms hk i a ha]
+  cases hm : (ms[i]?).bind (fun m => m[a]?) with
+  | none => rfl
+  | some row =>
+    simp only [Option.map_some]
+    rw [padRow_before k ms.length i row j hj]
+    rfl
+
+/-- right of block `i`: zero -/
+theorem cov_matrix_entry_right (k : Nat) (ms : List (List (List Rat))) (hk : ∀ m ∈ ms, m.length = k)
+    (i a j : Nat) (m : List (List Rat)) (row : List Rat) (ha : a < k)
+    (hm : ms[i]? = some m) (hr : m[a]? = some row) (hj : i * k + row.length ≤ j) :
+    entry (blockDiag k ms) (i * k + a) j = 0 := by
+  unfold entry
+  rw [cov_matrix_rows k ms hk i a ha, hm]
+  simp only [Option.bind_some]
+  rw [hr]
+  simp only [Option.map_some]
+  exact padRow_after k ms.length i row j hj
+
+/-- **Blocks follow x / y** (repaired behaviour, `fixes/C20-covariance-blocks-sorted.patch`): block `i`
+is the covariance matrix of the sample whose parameters are `y[i*k ..]`, and with pairwise distinct
+abscissae the whole matrix does not depend on the order of supply. -/
+theorem cov_blocks_order_independent (cfg : Cfg) (hflag : cfg.blocksSorted = true) (k : Nat)
+    (ss ss' : List Sample) (hp : ss.Perm ss') (hnd : (ss.map (·.t)).Nodup) :
+    covMatrix cfg k ss = covMatrix cfg k ss' ∧
+    covMatrix cfg k ss = blockDiag k ((sortByT ss).map (·.cov)) := by
+  have e := sortByT_of_perm hp hnd
+  unfold covMatrix
+  simp [hflag, e]
+
+/-- Unchanged code (blocks in the order of supply): the same holds only for samples supplied in
+increasing order of the interpolation variable. -/
+theorem cov_blocks_partial_when_flag_off (cfg : Cfg) (k : Nat) (ss : List Sample)
+    (hs : ss.Pairwise (fun a b => a.t ≤ b.t)) :
+    covMatrix cfg k ss = blockDiag k ((sortByT ss).map (·.cov)) := by
+  unfold covMatrix
+  rw [sortByT_of_sorted ss hs]
+  split <;> rfl
+
+/-- two samples supplied in decreasing order of `t`, with different covariance matrices -/
+def covSeries : List Sample :=
+  [{ t := 2, params := [20, 21], cov := [[1, 0], [0, 1]], logl := -1 },
+   { t := 1, params := [10, 11], cov := [[9, 3], [3, 9]], logl := -2 }]
+
+/-- Refuted for the unchanged code: `y` starts with the parameters of the sample with `t = 1` while the
+first block is the covariance of the sample with `t = 2`; supplying the same samples in the other
+order gives the same `x`, `y` and another matrix. With the repair both orders agree. -/
+theorem cov_blocks_refuted_when_flag_off :
+    covX covSeries = [1, 2] ∧ covY covSeries = [10, 11, 20, 21] ∧
+    entry (covMatrix {} 2 covSeries) 0 0 = 1 ∧
+    entry (covMatrix {} 2 covSeries.reverse) 0 0 = 9 ∧
+    covY covSeries.reverse = covY covSeries ∧
+    entry (covMatrix { blocksSorted := true } 2 covSeries) 0 0 = 9 ∧
+    covMatrix { blocksSorted := true } 2 covSeries = covMatrix { blocksSorted := true } 2 covSeries.reverse := by
+  decide +kernel
+
+/-- **The interpolation variable equals the requested value** (repaired behaviour,
+`fixes/C20-covariance-variable-assigned.patch`). -/
+theorem cov_variable_equals_requested (cfg : Cfg) (hflag : cfg.setsVariable = true) (held v : Rat) :
+    covVariable cfg held v = v := by
+  unfold covVariable
+  rw [hflag]
+  rfl
+
+/-- Refuted for the unchanged code: the answer keeps what the template model holds. -/
+theorem cov_variable_refuted_when_flag_off : covVariable {} 2 (1 / 2) = 2 ∧ (2 : Rat) ≠ 1 / 2 := by
+  decide +kernel
+
+/-- **The template model** (`_single_model`) is that of the first sample attaining the highest
+likelihood: nothing is higher, everything before is strictly lower. -/
+theorem cov_single_model_is_first_maximum (l : List Rat) (r : Nat) (h : argmaxFirst l = some r) :
+    ∃ rv, l[r]? = some rv ∧ ∀ j x, l[j]? = some x → x ≤ rv ∧ (j < r → x < rv) := by
+  cases l with
+  | nil => cases h
+  | cons x rest =>
+    simp only [argmaxFirst, Option.some.injEq] at h
+    have := argmaxFrom_spec rest [x] 0 x (by simp) (by simp)
+      (by
+        intro j y hj
+        cases j with
+        | zero => simp at hj; subst hj; exact ⟨Rat.le_refl, fun h => absurd h (Nat.lt_irrefl _)⟩
+        | succ j => simp at hj)
+    simp only [List.length_cons, List.length_nil, Nat.zero_add, List.singleton_append] at this
+    rw [h] at this
+    exact this
+
+/-! ### non-vacuity -/
+
+/-- three samples out of order, two parameters each -/
+def covSeries3 : List Sample :=
+  [{ t := 2, params := [20, 21], cov := [[1, 0], [0, 1]], logl := -1 },
+   { t := 0, params := [0, 1], cov := [[4, 2], [2, 4]], logl := -1 },
+   { t := 1, params := [10, 11], cov := [[9, 3], [3, 9]], logl := -2 }]
+
+example : (covSeries3.map (·.t)).Nodup ∧ ∀ s ∈ covSeries3, s.params.length = 2 := by decide +kernel
+example : covX covSeries3 = [0, 1, 2] ∧ covY covSeries3 = [0, 1, 10, 11, 20, 21] := by decide +kernel
+example : ∀ m ∈ covSeries3.map (·.cov), m.length = 2 := by decide +kernel
+example : covMatrix { blocksSorted := true } 2 covSeries3 =
+    [[4, 2, 0, 0, 0, 0], [2, 4, 0, 0, 0, 0], [0, 0, 9, 3, 0, 0], [0, 0, 3, 9, 0, 0],
+     [0, 0, 0, 0, 1, 0], [0, 0, 0, 0, 0, 1]] := by decide +kernel
+example : argmaxFirst (covSeries3.map (·.logl)) = some 0 ∧ argmaxFirst [-3, -1, -2, -1] = some 1 := by
+  decide +kernel
+example : covGet [(2, 1), (-1, 0)] (1 / 2) = [2, -1 / 2] := by decide +kernel
+example : ([{ t := 0, params := [], cov := [], logl := 0 }, { t := 1, params := [], cov := [], logl := 0 }] :
+    List Sample).Pairwise (fun a b => a.t ≤ b.t) := by decide +kernel
 
 end AF.C20
